@@ -6,7 +6,9 @@
  *     cap          the libraries' own counters are reported saturating at cap
  *     flags        "-" or "main": report the balance of the handle on the program (dlopen(NULL)) and whether each object holds one
  *
- * dlopen / dlclose / dlsym / dlerror are interposed at link time (-Wl,--wrap=...).  The wrappers
+ * dlopen / dlclose / dlsym / dlerror / exit are interposed at link time (-Wl,--wrap=...; x05_record is exported with
+ * -Wl,--export-dynamic-symbol so that the shared objects can report to the harness).  exit() only matters while a NULL-argument
+ * call whose stated outcome is libast's fatal exit is in progress: it then returns to the harness by longjmp.  The dl wrappers
  *   - keep the loader's view: one entry per handle with its open count (successful dlopen - successful dlclose), the order of
  *     first opens, the library it maps (by file name), the balance of dlopen(NULL) / dlclose(main handle);
  *   - refuse and count every dlsym / dlclose on a handle that is not open ("stale"), so that a use after close is an
